@@ -69,7 +69,7 @@ def _native_jvp(name):
   return {'reproduced': bool(bad), 'bad': bad}
 
 
-def jvp_defined(tag, fn_getter, shapes, pre=None, units=(), native=None, tiers=('quick', 'thorough'), timeout=120, lemmas=None):
+def jvp_defined(tag, fn_getter, shapes, pre=None, units=(), native=None, tiers=('quick', 'thorough'), timeout=120, lemmas=None, cos_positive=False):
   names = list(shapes)
 
   def body(A):
@@ -90,6 +90,10 @@ def jvp_defined(tag, fn_getter, shapes, pre=None, units=(), native=None, tiers=(
       P.append(sum(e * e for e in prim[u].reshape(-1)) == 1)
     if pre:
       P += pre(A, prim)
+    if cos_positive:
+      # trusted real-analysis axiom, instantiated for every trigonometric argument that occurs:  cos t > 0 for |t| < 3/2 (< pi/2)
+      for (a_, c_, s_) in A.trig.values():
+        P.append(z3.Implies(z3.And(a_ > -z3.RealVal('3/2'), a_ < z3.RealVal('3/2')), c_ > 0))
     if lemmas:
       # algebraic lemmas: instances of unconditional polynomial identities over the inputs.  Each is proved valid on its own (no hypotheses) before it is assumed.
       for nm, L in lemmas(A, prim):
@@ -329,6 +333,45 @@ def contact_kernel_defined(pipeline):
                     'contact kernels), zero tangential velocity and zero penetration included', body, timeout=200, budget=1500, abstract=True, split_first=True, kind='attempted', tiers=('thorough',))
 
 
+def _g_generalized_integrate_q_free():
+  """brax.generalized.integrator:_integrate_q_free"""
+  from brax.generalized import integrator
+  from verif.contracts import physsys
+  sys = physsys.load(physsys.xml_free())
+  return lambda q, qd: integrator._integrate_q_free(sys, q, qd)
+
+
+def _free_lemmas(A, p):
+  """quaternion norm multiplicativity |r (x) u|^2 = |r|^2 |u|^2 (C09/quat_mul/norm), instantiated on the very terms of the trace: the incremental rotation u is re-traced with the
+  same algebra (terms are hash-consed, square roots and trigonometric functions are cached by argument), so the lemma speaks about the traced terms"""
+  from brax import math
+  from verif.contracts import physsys
+  dt = float(physsys.load(physsys.xml_free()).opt.timestep)
+
+  def incr(ang):
+    n = math.safe_norm(ang) + 1e-8
+    return math.quat_rot_axis(ang / n, dt * n)
+  u = sym_call(Interp(A), incr, Sym(np.asarray(p['qd'][3:6], dtype=object)))
+  r = np.asarray(p['q'][3:7], dtype=object)
+  m = sym_call(Interp(A), math.quat_mul, Sym(r), Sym(np.asarray(u, dtype=object)))
+  ss = lambda v: sum(e * e for e in v)
+  return [('quat_norm_multiplicative', ss(list(m)) == ss(list(r)) * ss(list(u)))]
+
+
+def _native_free_rest():
+  """jax.grad through one generalized step of a single free body at rest"""
+  from brax.io import mjcf
+  from brax.generalized import pipeline as pl
+  sys = mjcf.loads('<mujoco><option timestep="0.002"/><worldbody><body pos="0 0 1"><freejoint/><geom type="sphere" size="0.1" contype="0" conaffinity="0"/></body></worldbody></mujoco>')
+
+  def loss(q, qd):
+    st = pl.step(sys, pl.init(sys, q, qd), jp.zeros(0))
+    return jp.sum(st.x.pos) + jp.sum(st.q) + jp.sum(st.qd)
+  g = jax.grad(loss, argnums=(0, 1))(sys.init_q, jp.zeros(6))
+  bad = not all(np.isfinite(np.asarray(a)).all() for a in g)
+  return {'reproduced': bad, 'model': 'single free body, qd = 0', 'gradient': [np.asarray(a).tolist() for a in g]}
+
+
 def _native_grad_helper(which):
   from brax import math
   bad = []
@@ -456,6 +499,9 @@ def obligations(tier):
          jvp_defined('normalize[n=4]', _g_normalize, {'x': (4,)}, native=lambda: _native_grad_helper('normalize'), tiers=Th),
          jvp_defined('quat_to_3x3', _g_quat_to_3x3, {'q': (4,)}, pre=lambda A, p: [sum(e * e for e in p['q']) > 0]),
          jvp_defined('spring.integrator.integrate', _g_spring_integrate, {'p': (1, 3), 'r': (1, 4), 'w': (1, 3), 'v': (1, 3), 'dw': (1, 3), 'dv': (1, 3)}, units=('r',)),
+         jvp_defined('generalized.integrator._integrate_q_free', _g_generalized_integrate_q_free, {'q': (7,), 'qd': (6,)},
+                     pre=lambda A, p: [sum(e * e for e in p['q'][3:7]) == 1] + [z3c for e in p['qd'][3:6] for z3c in (e <= 100, e >= -100)],
+                     native=_native_free_rest, timeout=200, cos_positive=True, lemmas=_free_lemmas),
          jvp_defined('positional.integrator.integrate_xdd', _g_positional_integrate, {'p': (1, 3), 'r': (1, 4), 'w': (1, 3), 'v': (1, 3), 'dw': (1, 3), 'dv': (1, 3)}, units=('r',), timeout=200),
          bounded(tier)]
   import z3 as _z3
